@@ -190,7 +190,8 @@ class Quoter:
                     raise ExtractError('R-quote: unterminated let in %s' % fname)
                 name = m.group(2)
                 try:
-                    env[name] = self.eval_expr(raw[m.end():end], env)
+                    val = self.eval_expr(raw[m.end():end], env)
+                    env[name] = list(val) if isinstance(val, list) else val
                 except ExtractError as e:
                     env[name] = e          # only an error if the hole is used
                 pos = end + 1
@@ -238,6 +239,25 @@ class Quoter:
                     env[m.group(1)] = x
                     self.exec_stmts(b, bc, env, fname)
                 pos = bc + 1
+                continue
+            m = re.compile(r'(\w+)\s*\.\s*(sort_by_key|sort_unstable_by_key)\s*\(\s*\|\s*(\w+)\s*\|').match(msk, pos)
+            if m:
+                paren = msk.index('(', m.start())
+                close = rs.match_close(msk, paren)
+                v = env.get(m.group(1))
+                if not isinstance(v, list):
+                    raise ExtractError('R-quote: sort on a non-list local %s in %s' % (m.group(1), fname))
+                body = raw[m.end():close]
+                v.sort(key=lambda x: self.eval_expr(body, dict(env, **{m.group(3): x})))     # stable, like sort_by_key
+                pos = msk.index(';', close) + 1
+                continue
+            m = re.compile(r'(\w+)\s*\.\s*(reverse)\s*\(\s*\)\s*;').match(msk, pos)
+            if m:
+                v = env.get(m.group(1))
+                if not isinstance(v, list):
+                    raise ExtractError('R-quote: reverse on a non-list local %s in %s' % (m.group(1), fname))
+                v.reverse()
+                pos = m.end()
                 continue
             m = re.compile(r'(\w+)\s*\.\s*push\s*\(').match(msk, pos)
             if m:
